@@ -100,8 +100,8 @@ LeaveUsers(st, now) ==
 
 \* the i-th operation `o` of the history, issued at time i - 1
 \* `valid`: a release / cancel addresses a request that exists (an earlier request / put / get)
-Apply(st, o, i, valid) ==
-  LET r == [id |-> i, a |-> o.a, p |-> o.p, pre |-> o.pre, t |-> i - 1, since |-> 0, now |-> i - 1, use |-> o.op = "use"]
+Apply(st, o, i, valid, tm) ==
+  LET r == [id |-> i, a |-> o.a, p |-> o.p, pre |-> o.pre, t |-> tm, since |-> 0, now |-> tm, use |-> o.op = "use"]
       st1 ==
         CASE o.op \in {"put", "request", "use"} ->
                [st EXCEPT !.putq = IF st.kind \in {"PriorityResource", "PreemptiveResource"} THEN InsertSorted(@, r)
@@ -111,14 +111,19 @@ Apply(st, o, i, valid) ==
                \* cancelling a request that was not granted withdraws it; otherwise nothing happens
                [st EXCEPT !.putq = SelectSeq(@, LAMBDA q : q.id # o.a), !.getq = SelectSeq(@, LAMBDA q : q.id # o.a)]
           [] OTHER -> st IN
-  IF o.op \in {"put", "request", "use"} THEN LeaveUsers(Cascade(st1, i - 1, "put"), i - 1)
-  ELSE IF o.op = "get" \/ (o.op = "release" /\ valid) THEN LeaveUsers(Cascade(st1, i - 1, "get"), i - 1)
+  IF o.op \in {"put", "request", "use"} THEN LeaveUsers(Cascade(st1, tm, "put"), tm)
+  ELSE IF o.op = "get" \/ (o.op = "release" /\ valid) THEN LeaveUsers(Cascade(st1, tm, "get"), tm)
   ELSE st1       \* a cancel examines no queue
 
 RECURSIVE Run(_, _, _)
 Valid(hist, i) == LET o == hist[i] IN
   o.op \in {"release", "cancel"} => (o.a < i /\ hist[o.a].op \in (IF o.op = "release" THEN {"request", "use"} ELSE {"put", "get", "request", "use"}))
-Run(st, hist, i) == IF i > Len(hist) THEN st ELSE Run(Apply(st, hist[i], i, Valid(hist, i)), hist, i + 1)
+\* `pair` = k > 0: operation k+1 is issued in the same time step as operation k (otherwise one operation per step)
+TimeOf(i, pair) == IF pair > 0 /\ i > pair THEN i - 2 ELSE i - 1
+RECURSIVE RunP(_, _, _, _)
+RunP(st, hist, i, pair) == IF i > Len(hist) THEN st
+                           ELSE RunP(Apply(st, hist[i], i, Valid(hist, i), TimeOf(i, pair)), hist, i + 1, pair)
+Run(st, hist, i) == RunP(st, hist, i, 0)
 \* observable projection after the whole history
 Project(st) == [level |-> st.level, items |-> [i \in 1..Len(st.items) |-> st.items[i].id],
                 users |-> {st.users[i].id : i \in 1..Len(st.users)}, granted |-> st.granted,
